@@ -473,6 +473,9 @@ class TransportLayerLogic:
             if self.rate_limit_window_size <= 0:
                 raise ValueError('rate_limit_window_size must be greater than 0')
 
+            if isinstance(self.rate_limit_window_size, float) and not math.isfinite(self.rate_limit_window_size):
+                raise ValueError('rate_limit_window_size must be a finite value')
+
             if not isinstance(self.rate_limit_enable, bool):
                 raise ValueError('rate_limit_enable must be a boolean value')
 
